@@ -292,6 +292,10 @@ func confirms(v *Violation, r *replayResult) bool {
 		if r.Outcome != "panic" {
 			return false
 		}
+		if v.Label == "alloc" && r.Kind == "alloc" && r.Pos == "" && strings.Contains(v.Msg, "budget") {
+			// an allocation budget stated by the harness: the native run measured its own total
+			return true
+		}
 		base := v.Pos
 		if i := strings.LastIndex(base, "/"); i >= 0 {
 			base = base[i+1:]
